@@ -286,9 +286,14 @@ class Run:
     def model_answers(self, ops_path, out_path):
         with open(ops_path, "rb") as fin, open(out_path, "wb") as fout:
             t0 = time.time()
-            p = subprocess.run([MODELDRV], stdin=fin, stdout=fout, stderr=subprocess.PIPE)
-            self.say(f"[model] {os.path.basename(ops_path)} rc={p.returncode} ({time.time()-t0:.1f}s)")
-            return p.returncode
+            limit = 5400 if self.tier == "thorough" else 1200
+            try:
+                p = subprocess.run([MODELDRV], stdin=fin, stdout=fout, stderr=subprocess.PIPE, timeout=limit)
+                rc = p.returncode
+            except subprocess.TimeoutExpired:
+                rc = 124  # reported by compare() as "driver stopped after n of total answers"
+            self.say(f"[model] {os.path.basename(ops_path)} rc={rc} ({time.time()-t0:.1f}s)")
+            return rc
 
     def ask_model(self, lines):
         p = subprocess.run([MODELDRV], input="\n".join(lines) + "\n", stdout=subprocess.PIPE, text=True)
@@ -338,7 +343,8 @@ class Run:
         wall = time.time() - self.t0
         for k in self.known_hits:
             print(f"KNOWN-FINDING: property={self.pid} {k}", flush=True)
-        for kind, path, found in self.violations:
+        # violations with a concrete failing input first
+        for kind, path, found in sorted(self.violations, key=lambda v: 0 if v[2] else 1):
             tail = "" if found else " no-failing-input-found"
             print(f"VIOLATION property={self.pid} replay={path}{tail}", flush=True)
         ev = {
